@@ -727,7 +727,7 @@ func (c *converter) Copy(destination string, source string, valueUsed bool, glob
 	c.sliceCopyHelperRequired = true
 	c.callFunc(sliceCopyHelper, []string{}, c.varName(destination, global), source)
 
-	c.callFunc(sliceLenGetHelper, []string{}, c.varEvaluationString(destination, global))
+	c.callFunc(sliceLenGetHelper, []string{}, source) // the number of copied elements
 	return c.varEvaluationString("_len", true), nil
 }
 
